@@ -1,3 +1,4 @@
+import DcmVerif.Props.Source
 import DcmVerif.Proofs.EndToEnd
 import DcmVerif.Props.C01_stack
 /-! Property theorems for C01. Statements only; proofs are by reference to `Proofs/`. -/
